@@ -243,6 +243,21 @@ def Fate.toDelivery : Fate → Delivery
   | .outOfFuel => .outOfFuel
   | .sendPanic => .sendPanic
 
+/-! ### addressing a gate by `(name, pos)` -/
+
+/-- an entry of `ModuleContext::gates` (registration order): cluster name, position, the gate -/
+structure GateDecl where
+  name : Nat
+  pos : Nat
+  id : Nat
+deriving Repr, DecidableEq
+
+/-- `ModuleContext::gate(name, pos)` and `IntoModuleGate for (&str, usize)`: the first registered gate
+    with that name and position — whatever the order in which the members of a cluster were created
+    (`create_raw_gate`) and whatever was registered in between -/
+def lookupGate (gs : List GateDecl) (name pos : Nat) : Option Nat :=
+  (gs.find? fun d => d.name == name && d.pos == pos).map (·.id)
+
 /-- total delay of the channels on a list of hops -/
 def delaySum (hops : List Conn) : Nat := (hops.map (·.chan.getD 0)).sum
 
